@@ -199,6 +199,21 @@ fn do_resolve<Fd: AsFd, P: AsRef<Path>>(
                 source: err,
             })?,
     );
+    // openat2(2) has no equivalent of AT_EMPTY_PATH, so the kernel returns
+    // ENOENT for an empty path (and a partial lookup stops at the root). We
+    // have to do the same rather than treating "" like ".".
+    if path.as_ref().as_os_str().is_empty() {
+        return Ok(PartialLookup::Partial {
+            handle: root,
+            remaining: PathBuf::new(),
+            last_error: ErrorImpl::OsError {
+                operation: "emulated openat2 of an empty path".into(),
+                source: IOError::from_raw_os_error(libc::ENOENT),
+            }
+            .into(),
+        });
+    }
+
     let mut current = Rc::clone(&root);
 
     // Get initial set of components from the passed path. We remove components
